@@ -359,6 +359,48 @@ def _resolver_message(msg: str, code: int, where: int, cfg: int) -> bool:
     return result(ok, len(msg) > 0)
 
 
+# ---------------------------------------------------------------- failures stay contained on the DEFERRED runtimes too
+DEFERRED_QUERIES = (
+    "mutation { ml { id ... on Obj { x y } } m3 }",          # a list whose second item cannot be typed (ResolverError from the type resolver) after item 0 started deferred work
+    "mutation { m1 { x } ml { ... on Obj { y } } m3 }",
+    "mutation { m1 { x sc } msc m3 }",                        # scalars whose serialize raises ResolverError while the value is completed
+    "{ a sc o { x sc } b }",
+)
+
+
+def _deferred_containment(q: int, cfg: int, kx: int, s0: int, s1: int, s2: int, s3: int, s4: int) -> bool:
+    """
+    pre: 0 <= q < len(DEFERRED_QUERIES) and 1 <= cfg <= 3 and 1 <= kx <= 2
+    pre: 0 <= s0 <= 4 and 0 <= s1 <= 3 and 0 <= s2 <= 2 and 0 <= s3 <= 1 and s4 == 0
+    post: _
+    """
+    from harness import execworld as W
+    from harness.c08 import make_chooser, run_config
+    from py_gql.execution import BlockingExecutor
+    Q, C, KX = pick(q, DEFERRED_QUERIES), concrete_int(cfg, 1, 3), concrete_int(kx, 1, 2)
+    sched = [s0, s1, s2, s3, s4]
+    with untraced():
+        kinds = {"m1": 1, "m2": 1, "m3": 1, "x": KX, "y": 1, "a": 1, "o": 1}
+        base, _ = W.run_blocking(kinds, Q, BlockingExecutor)
+        got, w = run_config(C, kinds, Q, sched, False)
+        if got[0] == "pruned":
+            return result(True, False)
+        steps = getattr(w, "steps", 0)
+    for r in sched[steps:]:
+        if r != 0:
+            return result(True, False)
+    with untraced():
+        # the request is ANSWERED (never an exception out of the entry point, never a future that stays pending) with the response the blocking executor gives:
+        # the same nulls, each matched by the same single error with its path
+        ok = base[0] == "ok" and got == base
+        if ok:
+            data = json.loads(got[1])
+            paths = [p for _, p in got[2]]
+            # (errors recorded below a position that was nulled afterwards stay in the list: the specification keeps them)
+            ok = all(paths.count(json.dumps(list(p))) == 1 for p in nulls_in(data))
+    return result(ok, steps >= 2)
+
+
 RENDER_N = 4 if thorough() else 3
 
 
@@ -408,6 +450,14 @@ def _solve_line_separator(tier):
 
 
 CONDITIONS = [
+    Cond(
+        name="deferred_containment", fn=_deferred_containment, quick=150, thorough=300, per_path=60,
+        bound="4 operations whose failure happens while a value is COMPLETED (a list item whose type resolver raises ResolverError after an earlier item started deferred sub-resolvers; scalars whose serialize "
+              "raises) x sub-resolver value / ResolverError x thread pool (stub) / asyncio coroutines / asyncio plain functions x EVERY completion order (<= 5 tasks): the entry point answers with the "
+              "blocking executor's response - no exception, no pending future - and every null is matched by exactly one error with its path",
+        symbolic={"q,cfg,kx": "choice", "s0..s4": "choice: completion order"}, assumptions=["as C08 (stub pool, DetLoop)"],
+        witness={"q": 0, "cfg": 1, "kx": 1, "s0": 0, "s1": 0, "s2": 0, "s3": 0, "s4": 0},
+    ),
     Cond(
         name="resolver_message", fn=_resolver_message, quick=120, thorough=300, per_path=120,
         bound="the MESSAGE (every str of <= 4 symbolic characters) and an extensions value (symbolic int, abs <= 10**6) of a resolver's error flow through the real executors, error bookkeeping and response "
